@@ -12,7 +12,7 @@ INJECTS = [("harness/libacc/lib_verif.go", "pkg/station/lib/zz_verif_acc.go"),
 ASSUME = ["scheduling points: every lock acquisition (RWMutex with writer preference), channel operation and select, thread spawn, the liveness probe and the resolver (that is where real workers spend their time); releases are not points (except in the S8 scenarios, where every Unlock / RUnlock is one as well); stats counters use atomics and are not points",
           "serial differential oracle: the set of outcomes (announcement multiset with the covert at announcement time, final registry incl. validity / duplicate count / covert / used flag, every lookup's answer) of all serial orders of the same thread bodies is the specification; every concurrent outcome must be a member",
           "unsynchronised accesses are invisible to the cooperative scheduler: the clause 'never accessed without synchronisation' is covered by a free-running companion run of the same operations on the unmodified code under the Go race detector (adjunct_runs in the coverage; a sample of schedules, every report is a violation)"]
-S15 = ["S1:same-registration-twice+connection", "S2:same-secret-different-covert", "S2b:unresolved-name-vs-literal", "S3:worker+sweeper+connection@9m59s", "S3:worker+sweeper+connection@10m1s", "S3c:two-workers+lifetime-passes+sweeper", "S8:lookup-all+second-transport@release-points", "S8:lookup-all+sweeper@release-points", "S3b:sweeper+connection@three-expired,activate=1", "S3b:sweeper+connection@three-expired,activate=2", "S3b:sweeper+connection@three-expired,activate=3", "S4:worker+reload+lookup", "S5:three-workers+sweeper"]
+S15 = ["S1:same-registration-twice+connection", "S2:same-secret-different-covert", "S2b:unresolved-name-vs-literal", "S3:worker+sweeper+connection@9m59s", "S3:worker+sweeper+connection@10m1s", "S3c:two-workers+lifetime-passes+sweeper", "S8:lookup-all+second-transport@release-points", "S8:lookup-all+sweeper@release-points", "S8:worker+connection@release-points", "S3b:sweeper+connection@three-expired,activate=1", "S3b:sweeper+connection@three-expired,activate=2", "S3b:sweeper+connection@three-expired,activate=3", "S4:worker+reload+lookup", "S5:three-workers+sweeper"]
 def scripts(m, after):
     """all orderings of m arrivals, one probe-release and one stop, followed by `after` arrivals after the stop"""
     import itertools
